@@ -43,5 +43,10 @@ META.update({
  "C15": {"text": "Generated arena shapes (reserved or caller-managed with misalignment and odd sizes, exclusive or not) x histories over bound and unbound heaps, helper threads with bound heaps that exit, capacity probes and fill-until-NULL; address-range oracle (inside the bound arena, never inside a foreign exclusive arena, also after adoption), NULL when full, exact capacity of an empty exclusive arena, OS-shim policing of the caller's mapping outside the managed part. Found and now guards the repaired adoption defect (F13).",
          "design_ref": "DESIGN.md §5 C15, §6 F13", "note": NOTE_HIST, "technique": "property-based testing: generated arena configurations x histories, address-range oracle + interposed OS layer"},
 })
+
+META.update({
+ "C17": {"text": "A generated history receives injected misuses (second free, one foreign byte at the requested size, XOR-forged free-list link; local or remote free) at generated positions on the secure and the debug build with the error callback registered; the oracle is the delivered error code (exactly one EAGAIN / an EFAULT no later than the re-allocation) and, on the secure build, continued consistency (no address twice, nothing outside the heap regions, C01 model for the rest of the history). One known finding (F14: delayed-free list links are not validated) is excluded by construction and demonstrated by a replay.",
+         "design_ref": "DESIGN.md §5 C17", "note": NOTE_HIST + " The same-area escape (a forged value decoding into the same page) is avoided by construction of the forged value instead of being classified white-box.", "technique": "property-based testing with injected API misuse; oracle = error callback codes + shadow model"},
+})
 ALL = ["C%02d" % i for i in range(1, 21)]
 NOT_APPLICABLE = [{"property_id": p, "reason": "check not built yet in this revision (planned, see DESIGN.md §10); not claimed"} for p in ALL if p not in CHECKS]
